@@ -204,4 +204,95 @@ def run(tier, seed):
             sts = stores_to_field(mod, DEC, "last_block", [nw])
             rep.check(rid, len(sts) == 1 and is_const(sts[0].ops[0]) and (const_val(sts[0].ops[0]) & 0xFFFFFFFF) == 0xFFFFFFFF,
                       "last_block starts at UINT_MAX", nw.file, None, function=nw.cname, obj="init")
+
+        # ---- R5 short-read discipline -----------------------------------------------------------------
+        # The decoded bytes are a function of the input stream only if no decoder consumes a byte that the input callback did not
+        # deliver: after `n = callback(buf, want, data)` into a local buffer, buf[k] may be read only under a fact that implies n > k.
+        rid = rep.rule("R5", "input-callback buffers: a byte at offset k of a local buffer filled by the input callback is read only under a fact implying "
+                             "that the callback delivered more than k bytes", 14)
+        from ..ir import field_of_gep
+        from ..mem import root
+        nsites = 0
+        for fn in mod.defined():
+            M = None
+            for c in fn.insts():
+                if c.op != "call" or c.callee is not None or c.calleev is None:
+                    continue
+                a = fn.defn(c.calleev)
+                if a is None or a.is_param or a.op != "load":
+                    continue
+                g = fn.defn(a.ops[0])
+                fo = field_of_gep(mod, g) if g is not None and not g.is_param and g.op == "getelementptr" else None
+                if not fo or fo[1] != "callback" or len(c.ops) < 3:
+                    continue
+                M = M or Matcher(fn)
+                F = ctx.facts(fn)
+                rt = root(fn, c.ops[0])
+                if rt[0] != "alloca":
+                    # the caller's buffer is handed on: the count must be what this function reports (null decoder: `return callback(buf, n, data)`)
+                    nsites += 1
+                    # every reported count is the delivered count, 0, or the requested count after the whole buffer was filled by memset
+                    filled = [m for m in fn.insts() if m.op == "call" and (m.callee or "").startswith("llvm.memset") and M.strip(m.ops[0], ("bitcast",)) == M.strip(c.ops[0], ("bitcast",))
+                              and M.strip(m.ops[2]) == M.strip(c.ops[1])]
+                    ok = bool(rets(fn)) and bool(rets(fn)[0].ops)
+                    for r_ in rets(fn):
+                        for sv, _ in F.sources(r_.ops[0]):
+                            if M.strip(sv) == ("v", c.id) or (is_const(sv) and const_val(sv) == 0):
+                                continue
+                            if M.strip(sv) == M.strip(c.ops[1]) and filled:
+                                continue
+                            ok = False
+                    rep.check(rid, ok, "%s: callback fills the caller's buffer and the function returns the delivered count" % fn.cname, c.where(), None, function=fn.cname, obj="passthrough")
+                    continue
+                nsites += 1
+                reach = blocks_after(fn, c)
+                for ld in fn.insts():
+                    if ld.op != "load" or ld.id == c.id:
+                        continue
+                    r2 = root(fn, ld.ops[0])
+                    if r2[0] != "alloca" or r2[1] != rt[1]:
+                        continue
+                    if not (ld.block.id in reach or (ld.block.id == c.block.id and ld.idx > c.idx)):
+                        continue
+                    fs = F.at_inst(ld)
+                    k = r2[2]
+                    ok, why = False, None
+                    if k is not None:
+                        k -= (rt[2] or 0)
+                        for f in fs:
+                            if M.strip(f[1]) != ("v", c.id) or not is_const(f[2]):
+                                continue
+                            cv = const_val(f[2])
+                            if (f[0] == "ne" and cv == 0 and k == 0) or (f[0] == "ugt" and cv >= k) or (f[0] == "uge" and cv >= k + 1) or (f[0] == "eq" and cv >= k + 1):
+                                ok, why = True, describe_fact(fn, f)
+                        # the request itself: delivered == requested is also a sufficient fact
+                        if not ok:
+                            f, _ = M.find_fact(("eq", ("inst", c.id), M.strip(c.ops[1]) if False else ANY), fs)
+                            if f is not None and M.strip(f[2]) == M.strip(c.ops[1]) and is_const(M.strip(c.ops[1])) and const_val(M.strip(c.ops[1])) >= k + 1:
+                                ok, why = True, describe_fact(fn, f)
+                    else:
+                        # variable index i: needs i < delivered
+                        gd = fn.defn(M.strip(ld.ops[0], ("bitcast",)))
+                        idx = [x["idx"] for x in gd.steps if "idx" in x][-1] if gd is not None and not gd.is_param and gd.op == "getelementptr" else None
+                        if idx is not None:
+                            for f in fs:
+                                if f[0] == "ult" and M.strip(f[1]) == M.strip(idx) and M.strip(f[2]) == ("v", c.id):
+                                    ok, why = True, describe_fact(fn, f)
+                    rep.check(rid, ok, "%s: byte %s of the local buffer is read only if the callback delivered it" % (fn.cname, k if k is not None else "[i]"), ld.where(),
+                              why if ok else "the callback may deliver fewer bytes than requested (%s); facts here: %s" % (
+                                  describe(fn, c.ops[1]), sorted(describe_fact(fn, x) for x in fs if M.strip(x[1]) == ("v", c.id))),
+                              function=fn.cname, obj="short-read@%s" % (k if k is not None else "i"))
+        rep.extra["input_callback_sites"] = nsites
     return rep.finish(seed)
+
+
+def blocks_after(fn, inst):
+    seen = set()
+    work = list(inst.block.succs)
+    while work:
+        b = work.pop()
+        if b in seen:
+            continue
+        seen.add(b)
+        work.extend(fn.blocks[b].succs)
+    return seen
